@@ -114,4 +114,14 @@ PROPS = {
              'distinct = hash of the rendered case; every case is non-trivial.',
         exhaustive=dict(quick=False, thorough=False),
         assumptions=['reference collapse / child search in harness/c18.cpp', 'library walk_ports supplies the walked addresses (its exactness is C09)']),
+    'C16': dict(
+        level_text='Runtime monitoring of algebraic laws: per case a pool of 9 argument lists (0..6 values, every scalar type, arrays of every element type and length 0..4 incl. empty typed arrays, values from 3-7 element pools so ties and prefixes are frequent; 64-bit values whose differences do not fit 32 bits; blobs that are zero-extended prefixes of each other) is compared pairwise and in triples: reflexivity, antisymmetry, transitivity (incl. ties), cmp==0 iff eq, and the documented order for same-type single values against a reference comparator. For each list EVERY subset of its constant/arithmetic runs (found by the harness, also inside arrays) is compressed (N x value, start/delta range): equality, order against every other list, iteration and rtosc_avmessage output must not change.',
+        level_note='NaN is excluded (no order is claimed); cross-type order and list-length order are only checked through the laws; arithmetic runs use values whose float arithmetic is exact. Infinite ranges are not generated.',
+        technique='law-based (algebraic) runtime monitor with harness-side run finder, AddressSanitizer/UBSan',
+        stages=[dict(harness='c16', variant='asan', quick=4000, thorough=200000,
+                     need=['pairs', 'pairs.tied', 'triples', 'compressed_variants', 'pairs.compressed_variants', 'pairs.reference_order', 'iterated_values', 'avmessages'])],
+        rule='case = pool of 9 lists: 81 ordered pairs (x compressed variants), 729 triples; every 5th case = all pairs of 8 same-type single values. '
+             'distinct = hash of the rendered pool; every case is non-trivial.',
+        exhaustive=dict(quick=False, thorough=False),
+        assumptions=['laws + reference comparator in harness/c16.cpp']),
 }
